@@ -78,6 +78,28 @@ def _ops(other_grid):
     op("isel(n_face=[3,1])", lambda x: x.isel(n_face=[3, 1]))  # not ascending: values follow the requested order, as in plain xarray
     op("isel(n_face=[2,2,0])", lambda x: x.isel(n_face=[2, 2, 0]))  # a face requested twice
     op("isel(n_face=[-1,0])", lambda x: x.isel(n_face=[-1, 0]))  # from-the-end index
+
+    # a grid-dimension selection on ANOTHER variable that lives on the same Grid object (same index values, other dimension):
+    # leaves this array as it is; whatever it leaves behind on the shared grid must not reach later selections of this array
+    def side(dim, idx):
+        def f(x):
+            g = getattr(x, "uxgrid", None)
+            if g is not None:
+                import uxarray as ux
+
+                n = {"n_node": g.n_node, "n_edge": g.n_edge, "n_face": g.n_face}[dim]
+                if max(idx) < n:
+                    try:
+                        ux.UxDataArray(np.zeros(n), dims=[dim], uxgrid=g, name="sibling").isel(**{dim: idx})
+                    except Exception:
+                        pass  # the sibling's own result is not judged here (e.g. a selection that leaves no face on a degenerate grid)
+            return x
+
+        return f
+
+    op("sibling.isel(n_node=[3,1])", side("n_node", [3, 1]))
+    op("sibling.isel(n_node=[0,1])", side("n_node", [0, 1]))
+    op("sibling.isel(n_edge=[2,2,0])", side("n_edge", [2, 2, 0]))
     op("isel(n_face=slice(1,4))", lambda x: x.isel(n_face=slice(1, 4)))
     op("ux.isel(n_node=[2],lev=1)", lambda x: x.isel(n_node=[2], lev=1), ux_only=True)  # inclusive node selection: no xarray counterpart
     op("x[0]", lambda x: x[0] if x.dims[0] not in ("n_face", "n_node", "n_edge") else (_ for _ in ()).throw(KeyError("grid dim")))
@@ -216,6 +238,8 @@ def run_case(case):
                     V.append({"oracle": "grid", "sig": "c10:grid-lost:%s" % oname, "msg": "start %s, program %s: result has uxgrid=%r" % (sname, p2, rg), "focus": focus})
                     continue
                 rel2, gexp2 = rel, gexp
+                if oname.startswith("sibling.") and oname not in rel:
+                    rel2 = rel + "+" + oname  # hidden state on the shared Grid object: part of the search state, or the merge would drop these programs
                 if not ux_only:
                     if deep:
                         if rg is gexp:
